@@ -43,9 +43,36 @@ def bounded(ctx, ex, per_trait):
     return n, nontriv, samples
 
 
+def duplicates(ctx, ex):
+    """the same trait named by two #[derive_ex(..)] attributes on one field / variant: every reached level contributes, so either both
+    attributes take part or the duplicate is refused with a message - never one of them dropped silently"""
+    cases = [("Clone", "struct X<T> { #[derive_ex(Clone(bound(T: P8, ..)))] #[derive_ex(Clone, bound(T: P9))] a: Box<T> }", ["P8", "P9"]),
+             ("Clone", "struct X<T> { #[derive_ex(Clone, bound(T: P9))] #[derive_ex(Clone(bound(T: P8, ..)))] a: Box<T> }", ["P8", "P9"]),
+             ("Debug", "enum X<T> { #[derive_ex(Debug(bound(T: P5, ..)))] #[derive_ex(Debug, bound(T: P6))] A(Box<T>), B }", ["P5", "P6"]),
+             ("PartialEq", "struct X<T>(#[derive_ex(PartialEq(bound(T: P8, ..)), PartialEq(bound(T: P9)))] Box<T>);", ["P8", "P9"])]
+    n = 0
+    for trait, item, need in cases:
+        for entry in ("attr", "derive"):
+            r = ex.attr(trait, item) if entry == "attr" else ex.derive("#[derive_ex(%s)] %s" % (trait, item))
+            n += 1
+            its = r.get("items") or []
+            impls = [i for i in its if i["kind"] == "impl"]
+            errs = [i for i in its if i["kind"] == "compile_error"]
+            if r["status"] != "ok" or (not impls and not errs):
+                ctx.violation("B:C04:dup:%s:%s" % (entry, item), "expansion failed", {"layer": "B", "item": item, "args": trait, "entry": entry, "result": r})
+            elif impls:
+                wh = " ".join(impls[0]["where"])
+                missing = [m for m in need if m not in wh]
+                if missing:
+                    ctx.violation("B:C04:dup:%s:%s" % (entry, item), "two #[derive_ex] attributes name %s on the same node: the bound(..) of one is silently dropped (missing %s; where-clause: %s)" % (trait, missing, wh),
+                                  {"layer": "B", "item": item, "args": trait, "entry": entry, "where": impls[0]["where"]})
+    return n
+
+
 def run(ctx):
     ex = Expander()
     n, nontriv, samples = bounded(ctx, ex, 60 if ctx.quick else 3000)
+    n += duplicates(ctx, ex)
     ex.close()
     g = glayer.run_g(ctx, G_UNITS)
     ctx.assumptions += [
